@@ -395,6 +395,41 @@ func TestVerifC04App(t *testing.T) {
 	s.explore(t)
 }
 
+// C04 with repeat_interval BELOW group_interval (legal, unusual): an unchanged firing group is then due again at every
+// flush, i.e. every group_interval, and never later than repeat_interval + group_interval (+ slack) after the last one.
+const fYAMLShortRepeat = `global:
+  resolve_timeout: 1m
+route:
+  receiver: r1
+  group_by: [g]
+  group_wait: 10s
+  group_interval: 1m
+  repeat_interval: 15s
+receivers:
+- name: r1
+`
+
+func TestVerifC04AppShortRepeat(t *testing.T) { shortRepeat(t, "C04") }
+
+// The same scenario decides C05 too: with the log entry gone before the next flush the resolved notification was lost.
+func TestVerifC05AppShortRepeat(t *testing.T) { shortRepeat(t, "C05") }
+
+func shortRepeat(t *testing.T, prop string) {
+	fInit(t)
+	c := monCfg{gw: 10 * time.Second, gi: time.Minute, repeat: 15 * time.Second, slack: 20 * time.Second, retention: 10 * time.Minute, receiver: "r1", integs: fIntegs1["r1"]}
+	s := &fScenario{prop: prop, part: "app-repeat-below-group-interval", yaml: fYAMLShortRepeat, integs: fIntegs1, mon: c, fo: defaultFOpts(), rt: time.Minute,
+		tail: 5 * time.Minute, depthQ: 3, depthT: 5, monitors: stdMonitors(c),
+		events: []fEvent{
+			{"fire A1 (end+1h)", func(x *fx) bool { x.fire("A1", "1", time.Hour); return true }},
+			{"fire A2 (end+1h)", func(x *fx) bool { x.fire("A2", "1", time.Hour); return true }},
+			{"resolve A1", func(x *fx) bool { x.resolve("A1", "1"); return true }},
+			{"all integrations: recoverable errors", func(x *fx) bool { x.setMode("", mRecoverable); return true }},
+			{"all integrations: ok", func(x *fx) bool { x.setMode("", mOK); return true }},
+			evAdvance(11 * time.Second), evAdvance(61 * time.Second), evAdvance(2*time.Minute + 1*time.Second),
+		}}
+	s.explore(t)
+}
+
 func TestVerifC05App(t *testing.T) {
 	fInit(t)
 	c := fMon1()
